@@ -292,7 +292,7 @@ def add_continuous(rng, ast, nmax=2, with_constraint=True):
                                         "width": width, "stride": rng.choice([1, 1, 2]), "start": start},
                              "weights": [float(rng.choice([1, 2])) for _ in range(width)], "coef": 1.0})
             d = {"kind": "custom", "base": float(rng.choice([0, 1, 5])), "deps": deps,
-                 "cumulative": rng.random() < 0.3, "noise": None if deps else [0.0, 1.0]}
+                 "cumulative": rng.random() < 0.3, "noise": None if deps else [0.0, 0.5]}
         f = {"id": "k%d" % j, "kind": "continuous", "name": name, "dist": d}
         conts.append(f)
     ast["factors"].extend(conts)
